@@ -5,7 +5,7 @@ import nets
 
 PID = "C09"
 THEOREMS = ["coarse_shape_covers", "repcell_spec", "valid_iff_outlet_dmm", "valid_iff_outlet_eam", "valid_iff_outlet_eam_plus",
-            "outlet_pixel_spec", "rep_pixels_distinct", "outlet_pixels_distinct", "d8_idx_spec", "upstream_d8_idx_spec", "eam_plus_answers", "up_eam_plus_no_err", "eam_plus_answers_needs_d8", "up_ihu_links_d8", "up_ihu_outlets_valid_topo", "up_ihu_outlets_distinct", "up_ihu_valid_iff_outlet", "up_ihu_outlet_cell_valid", "up_ihu_outlet_cell_valid_refuted", "up_ihu_no_marker", "up_ihu_valid_iff_outlet_total", "up_ihu_scale1", "up_ihu_scale1_net", "up_ihu_loop_refuted", "up_ihu_loop_refuted_minimize_error", "up_ihu_cycle_through_unflagged", "gen_up_subidx_2_idx_eq", "gen_up_in_d8_eq", "gen_up_cell_edge_eq", "gen_up_dmm_exitcell_eq", "gen_up_eam_repcell_eq", "gen_up_dmm_nextidx_eq", "gen_up_eam_nextidx_eq", "gen_up_ihu_outlets_eq", "gen_up_ihu_nextidx_eq", "gen_up_upscale_error_eq", "gen_up_upscale_error_assert", "gen_ihu_upscale_check_eq", "gen_ihu_optimize_rivlen_eq", "gen_ihu_minimize_error_eq", "gen_ihu_ihu_up_ihu", "eam_plus_link_partial", "upscale_error_spec", "first_outlet_downstream", "outlet_map_spec", "eam_scale1", "eam_plus_scale1", "eam_link_increases", "eam_loopfree", "eam_plus_loopfree", "eam_links_d8", "eam_plus_links_d8", "dmm_links_d8", "dmm_loopfree"]
+            "outlet_pixel_spec", "rep_pixels_distinct", "outlet_pixels_distinct", "d8_idx_spec", "upstream_d8_idx_spec", "eam_plus_answers", "up_eam_plus_no_err", "eam_plus_answers_needs_d8", "up_ihu_links_d8", "up_ihu_outlets_valid_topo", "up_ihu_outlets_distinct", "up_ihu_valid_iff_outlet", "up_ihu_outlet_cell_valid", "up_ihu_outlet_cell_valid_refuted", "up_ihu_no_marker", "up_ihu_valid_iff_outlet_total", "up_ihu_scale1", "up_ihu_scale1_net", "up_ihu_loop_refuted", "up_ihu_loop_refuted_minimize_error", "up_ihu_cycle_through_unflagged", "gen_up_subidx_2_idx_eq", "gen_up_in_d8_eq", "gen_up_cell_edge_eq", "gen_up_dmm_exitcell_eq", "gen_up_eam_repcell_eq", "gen_up_dmm_nextidx_eq", "gen_up_eam_nextidx_eq", "gen_up_ihu_outlets_eq", "gen_up_ihu_nextidx_eq", "gen_up_upscale_error_eq", "gen_up_upscale_error_assert", "gen_ihu_upscale_check_eq", "gen_ihu_optimize_rivlen_eq", "gen_ihu_minimize_error_eq", "gen_ihu_ihu_up_ihu", "gen_ihu_relocate_outlets_pf_eq", "gen_ihu_ihu_closed_pf", "gen_ihu_ihu_closed_noerr", "eam_plus_link_partial", "upscale_error_spec", "first_outlet_downstream", "outlet_map_spec", "eam_scale1", "eam_plus_scale1", "eam_link_increases", "eam_loopfree", "eam_plus_loopfree", "eam_links_d8", "eam_plus_links_d8", "dmm_links_d8", "dmm_loopfree"]
 RULE = ("random loop-free fine D8 networks 2x2..12x12 (ragged w.r.t. the scale factor, nodata regions, many small basins, "
         "single rows / columns) x methods dmm, eam, eam_plus, ihu x scale factors 1..5 x default and user upstream area "
         "(accumulations of positive integer weights), larger rasters to 15x15 for ihu / eam_plus, constructed rasters (corpus); "
